@@ -43,7 +43,7 @@ prop("C02",
      cosim_ignore="order,stamp",
      lin="values")
 prop("C04",
-     ["C04_keys_exact", "C04_quiescent", "C04_count_reports_keys", "C04_keys_reports_keys", "C04_witness"],
+     ["C04_keys_exact", "C04_quiescent", "C04_count_reports_keys", "C04_keys_reports_keys", "C04_rest_keys_are_the_maps_keys", "C04_witness"],
      ["C04."],
      [fam("nolimit","H",1500), fam("nolimit","L",1500), fam("pool","P",1000), fam("dfs-cancel","H",4000), fam("mix","H",800,"monitor"), fam("evict","L",800,"monitor"), fam("stream","H",800,"monitor"), fam("scale","L",2,"monitor"), fam("fine-nolimit","H",2000), fam("fine-mix","L",2000), fam("wide","H",600)],
      [fam("nolimit","H",40000), fam("nolimit","L",40000), fam("pool","P",20000), fam("dfs-cancel","H",80000), fam("dfs-lock3","H",100000), fam("mix","H",20000,"monitor"), fam("evict","L",20000,"monitor"), fam("stream","H",20000,"monitor"), fam("fine-nolimit","H",40000), fam("fine-mix","L",40000), fam("fine-stream","H",40000), fam("wide","H",20000), fam("wide-evict","L",20000)],
